@@ -264,14 +264,66 @@ def truthy : V → Bool
   | .dict es => !es.isEmpty
   | .obj _ => true
 
+/-! #### opaque objects with a class and attributes
+
+  An `obj` tag is either a plain name (`"o1"`: an instance of the harness class `Obj`) or
+  `Class#id+attr₁+attr₂…`: the instance `id` of the user class `Class` (created afresh for
+  every case by the harness) on which the attributes `attrᵢ` are set.  Enum members are
+  `Color#RED`.  Such objects are truthy, hashable, equal only to themselves, unorderable. -/
+
+def splitOnChar (c : Char) : List Char → List (List Char)
+  | [] => [[]]
+  | x :: xs =>
+    if x == c then [] :: splitOnChar c xs
+    else match splitOnChar c xs with
+      | [] => [[x]]
+      | h :: t => (x :: h) :: t
+
+/-- the class named by an object tag -/
+def tagCls (tag : String) : String :=
+  match splitOnChar '#' tag.toList with
+  | [c, _] => String.ofList c
+  | _ => "Obj"
+
+/-- `hasattr(obj, a)` for the attributes a tag lists -/
+def tagHasAttr (tag : String) (a : String) : Bool :=
+  match splitOnChar '#' tag.toList with
+  | [_, rest] => ((splitOnChar '+' rest).drop 1).contains a.toList
+  | _ => false
+
 /-- `type(x).__name__` -/
 def V.cls : V → String
   | .none => "NoneType" | .bool _ => "bool" | .int _ => "int" | .flt _ => "float"
   | .str _ => "str" | .list _ => "list" | .tuple _ => "tuple" | .set _ => "set"
-  | .fset _ => "frozenset" | .dict _ => "dict" | .obj _ => "Obj"
+  | .fset _ => "frozenset" | .dict _ => "dict" | .obj tag => tagCls tag
 
-/-- `isinstance(x, c)` through the class table (generated `targetClassTable`) -/
-def isInst (ct : ClassTable) (x : V) (c : String) : Bool := ct.isSub x.cls c
+/-- `hasattr(x, a)` as far as the catalogue of instance-dependent types looks (`name`, `flag`:
+    no builtin value has them) -/
+def V.hasAttr : V → String → Bool
+  | .obj tag, a => tagHasAttr tag a
+  | _, _ => false
+
+/-- Types whose `__instancecheck__` looks at the *instance*, not only at its class:
+    `HasName` is a `typing.runtime_checkable` Protocol with the data member `name`,
+    `Flagged` a class whose metaclass defines `__instancecheck__` as `hasattr(inst, 'flag')`.
+    (Python definitions: harness/props/c10.py `World.cls`.)  Two instances of one class may
+    differ in the answer. -/
+def protoTable : List (String × String) := [("HasName", "name"), ("Flagged", "flag")]
+
+/-- `isinstance(x, c)`: through the class table (real MRO followed by the ABCs the class is a
+    virtual subclass of — builtin rows generated, registrations applied by `registerCls`), or,
+    for an instance-dependent type, by its attribute test -/
+def isInst (ct : ClassTable) (x : V) (c : String) : Bool :=
+  ct.isSub x.cls c ||
+  (match protoTable.lookup c with
+   | some a => x.hasAttr a
+   | none => false)
+
+/-- `abc.register(k)`: every class that has `k` in its MRO becomes a (virtual) subclass of `abc`;
+    a class the table does not list yet gets its row first -/
+def registerCls (ct : ClassTable) (abc k : String) : ClassTable :=
+  let rows := if ct.any (·.1 == k) then ct else (k, ct.mro k) :: ct
+  rows.map (fun r => if r.2.contains k && !r.2.contains abc then (r.1, r.2 ++ [abc]) else r)
 
 mutual
 def V.hashable : V → Bool
